@@ -57,8 +57,11 @@ def main():
             json.dump(meta, open(meta_path, "w"), indent=1)
             return 3
         if not a.no_tests:
-            rc, o, e = sh([PY, "-m", "pytest", "-q", "-p", "no:cacheprovider", "--timeout=900", "--no-cov", "--deselect", "tests/test_stream.py::StreamTest::testNMEA"], d, env)
-            conf["tests_rc_with_change"] = rc
+            rc, o, e = sh([PY, "-m", "pytest", "-q", "-p", "no:cacheprovider", "--timeout=900", "--no-cov"], d, env)
+            failed = sorted(l.split()[1] for l in o.splitlines() if l.startswith("FAILED "))
+            # testNMEA fails on the unchanged tree too (BASELINE.json: always_fail); everything else must pass
+            conf["tests_failed_with_change"] = failed
+            conf["tests_rc_with_change"] = 0 if set(failed) <= {"tests/test_stream.py::StreamTest::testNMEA"} and "passed" in o else (rc or 1)
             conf["tests_tail"] = (o.strip().splitlines() or [""])[-1]
         rc1, o1, e1 = sh([PY, demo], d, env)
         conf["demo_with_change_rc"] = rc1
